@@ -19,10 +19,9 @@ def _tier(tier):
     # covers: (cfg, roles, MaxSig of the cfg, leaves replayed (None = all), of which eviction histories first, extra edges)
     if tier == "quick":
         return dict(mc=["Runner_nopre.cfg", "Runner_pre.cfg"],
-                    covers=[("Runner_nopre_cover.cfg", NOPRE_ROLES, 3, 200, 0, 80),
-                            ("Runner_evict_cover.cfg", NOPRE_ROLES, 3, 260, 160, 80),
-                            ("Runner_evict_pre_cover.cfg", PRE_ROLES, 2, 360, 220, 100)],
-                    random_runs=150)
+                    covers=[("Runner_evict_cover.cfg", NOPRE_ROLES, 3, 260, 150, 100),
+                            ("Runner_evict_pre_cover.cfg", PRE_ROLES, 2, 300, 180, 80)],
+                    random_runs=120)
     return dict(mc=["Runner_nopre.cfg", "Runner_pre.cfg"],
                 covers=[("Runner_nopre_cover.cfg", NOPRE_ROLES, 3, None, 0, 5000),
                         ("Runner_pre_cover.cfg", PRE_ROLES, 2, 4000, 0, 2000),
